@@ -30,6 +30,7 @@
 #include <unifex/get_stop_token.hpp>
 #include <unifex/sender_concepts.hpp>
 #include <unifex/receiver_concepts.hpp>
+#include <unifex/async_trace.hpp>
 #include <memory>
 namespace vp {
 using namespace unifex;
@@ -47,6 +48,15 @@ inline constexpr struct probe_query_throwing_fn {
 namespace unifex { template <> inline constexpr bool is_receiver_query_cpo_v<vp::probe_query_fn> = true;
                    template <> inline constexpr bool is_receiver_query_cpo_v<vp::probe_query_throwing_fn> = true; }
 namespace vp {
+struct root_receiver;
+struct probe_visitor {
+  template <typename C> void operator()(const C& c) const noexcept {
+    if constexpr (!std::is_same_v<C, root_receiver>) {
+      static_assert(is_tag_invocable_v<tag_t<visit_continuations>, const C&, probe_visitor>, "W-VISIT a receiver in the chain between a child and the consumer does not customise visit_continuations for an rvalue visitor: async_trace stops short of the root receiver");
+      visit_continuations(c, probe_visitor{});
+    }
+  }
+};
 struct probe_sched : inline_scheduler {};
 struct other_sched : inline_scheduler {};
 template <typename T> struct probe_alloc : std::allocator<T> {
@@ -88,6 +98,12 @@ struct leaf {
       static_assert(std::is_same_v<remove_cvref_t<decltype(get_scheduler(std::declval<const R&>()))>, typename Expect::sched>, "W-QUERY get_scheduler seen by a child is not the expected scheduler");
       static_assert(std::is_same_v<remove_cvref_t<decltype(get_allocator(std::declval<const R&>()))>, probe_alloc<char>>, "W-QUERY get_allocator is not forwarded to a child");
       static_assert(std::is_same_v<remove_cvref_t<decltype(get_stop_token(std::declval<const R&>()))>, typename Expect::token>, "W-QUERY the stop token type seen by a child is not the documented one");
+#if UNIFEX_ENABLE_CONTINUATION_VISITATIONS
+      // continuation visitation: the receiver handed to a child can be visited with an rvalue visitor (what async_trace
+      // passes); a hook taking `Func&` silently falls back to the no-op default and the trace stops short of the root
+      // walk the whole chain of continuations up to the consumer's receiver (compiled, never run)
+      visit_continuations(std::as_const(r), probe_visitor{});
+#endif
       if (which == 0) unifex::set_value(std::move(r));
       else if (which == 1) unifex::set_error(std::move(r), std::exception_ptr{});
       else unifex::set_done(std::move(r));
